@@ -2952,6 +2952,28 @@ func fileFromReader(name string, reader io.Reader) (*File, error) {
 	}, nil
 }
 
+// hasUnencodedContent reports whether the message is sent without transfer encoding ("8bit") as a
+// whole or in one of its body parts, attachments or embeds. Such a message needs a server that
+// announces the 8BITMIME extension.
+func (m *Msg) hasUnencodedContent() bool {
+	if m.encoding == NoEncoding {
+		return true
+	}
+	for _, part := range m.parts {
+		if part != nil && !part.isDeleted && part.encoding == NoEncoding {
+			return true
+		}
+	}
+	for _, files := range [][]*File{m.attachments, m.embeds} {
+		for _, file := range files {
+			if file != nil && file.Enc == NoEncoding {
+				return true
+			}
+		}
+	}
+	return false
+}
+
 // formatAddress combines a display name and a mail address into the `"name" <address>` form that
 // the address parser understands. A backslash or a double quote in the name is written as a
 // quoted-pair, so that the name that is parsed back is the name that was given.
